@@ -415,6 +415,10 @@ class BaseEMSurvey(ObjectBase, ABC):  # pylint: disable=too-many-public-methods
 
                         if isinstance(prop_group, PropertyGroup):
                             prop_groups.append(prop_group.name)
+                        elif isinstance(value, str):
+                            # the record is shared with the partner entity: a name that is
+                            # not a group of this entity is a group of the partner
+                            prop_groups.append(value)
 
                     metadata["EM Dataset"]["Property groups"] = prop_groups
 
